@@ -265,7 +265,9 @@ func surnameStartsWith(individual *gedcom.IndividualNode, letter rune) bool {
 
 func individualForNode(doc *gedcom.Document, node gedcom.Node) *gedcom.IndividualNode {
 	for _, individual := range doc.Individuals() {
-		if gedcom.HasNestedNode(individual, node) {
+		// A place directly below the individual describes the individual itself.
+		if gedcom.Node(individual) == node ||
+			gedcom.HasNestedNode(individual, node) {
 			return individual
 		}
 	}
